@@ -26,6 +26,7 @@ type Env struct {
 	ctx       *PkgCtx
 	visKey    string // state component of the map-range visited set for `visited(k)`
 	loopAlloc Term   // alloc array at the start of the enclosing loop (for newsince)
+	inQuant   bool   // inside a quantifier body: loaded terms mention bound variables
 	depth     int
 }
 
@@ -330,6 +331,7 @@ func (e *Env) selectField(v SVal, name string) (SVal, error) {
 			st := under(derefType(cur.Ty)).(*types.Struct)
 			ft := st.Field(idx).Type()
 			cur = SVal{vc.load(e.st, vc.fldAddr(cur.T, idx), vc.tc.SortOf(ft)), ft}
+			e.loadedWF(cur)
 		} else {
 			st, ok := under(cur.Ty).(*types.Struct)
 			if !ok {
@@ -444,7 +446,8 @@ func (e *Env) evalIndex(n *ast.IndexExpr) (SVal, error) {
 	switch t := under(v.Ty).(type) {
 	case *types.Slice:
 		addr := slElem(v.T, i.T)
-		return SVal{vc.load(e.st, addr, vc.tc.SortOf(t.Elem())), t.Elem()}, nil
+		r := SVal{vc.load(e.st, addr, vc.tc.SortOf(t.Elem())), t.Elem()}
+		return r, nil
 	case *types.Map:
 		i = e.coerce(i, t.Key())
 		return SVal{vc.mapLookup(e.st, v.T, i.T, t), t.Elem()}, nil
@@ -656,6 +659,7 @@ func (e *Env) evalCall(n *ast.CallExpr) (SVal, error) {
 			}
 			bv := vc.boundVar(kname, vc.tc.SortOf(mt.Key()))
 			c := e.child()
+			c.inQuant = true
 			c.vars[kname] = SVal{bv, mt.Key()}
 			body, err := c.Bool(n.Args[2])
 			if err != nil {
@@ -924,6 +928,7 @@ func (e *Env) evalQuant(n *ast.CallExpr, q string) (SVal, error) {
 		return SVal{}, fmt.Errorf("spec expr: %s: bound variable must be an identifier", q)
 	}
 	c := e.child()
+	c.inQuant = true
 	if len(n.Args) == 4 {
 		lo, err := e.Eval(n.Args[1])
 		if err != nil {
@@ -998,7 +1003,7 @@ func (e *Env) applyPure(pf *PureFunc, n *ast.CallExpr) (SVal, error) {
 	if e.depth > 12 {
 		return SVal{}, fmt.Errorf("spec expr: pure function nesting too deep (recursion?) at %s", pf.Name)
 	}
-	c := &Env{vc: vc, st: e.st, old: e.old, vars: map[string]SVal{}, ctx: pf.Ctx, depth: e.depth + 1, visKey: e.visKey}
+	c := &Env{vc: vc, st: e.st, old: e.old, vars: map[string]SVal{}, ctx: pf.Ctx, depth: e.depth + 1, visKey: e.visKey, inQuant: e.inQuant, loopAlloc: e.loopAlloc}
 	for i, p := range pf.Params {
 		c.vars[p] = args[i]
 	}
@@ -1008,4 +1013,19 @@ func (e *Env) applyPure(pf *PureFunc, n *ast.CallExpr) (SVal, error) {
 	}
 	v = c.coerce(v, pf.RType)
 	return SVal{v.T, pf.RType}, nil
+}
+
+// loadedWF records the heap well-formedness fact for a ground value loaded by a spec expression:
+// a reference stored in the heap points to an allocated object (or is nil).
+func (e *Env) loadedWF(v SVal) {
+	if e.inQuant || v.Ty == nil {
+		return
+	}
+	switch v.T.Sort {
+	case SRef, SSlice:
+		f := e.vc.allocFacts(e.st, v.T, v.Ty, 0)
+		if f.S != "true" {
+			e.vc.assume(True, f)
+		}
+	}
 }
